@@ -13,7 +13,8 @@ from pedal.source import verify  # noqa: E402
 from pedal.source.sections import (DEFAULT_SECTION_PATTERN, next_section, separate_into_sections,  # noqa: E402
                                    stop_any_sections, stop_sections)
 from pedal.tifa import tifa_analysis  # noqa: E402
-from pedal.sandbox.commands import run as sandbox_run, call as sandbox_call  # noqa: E402
+from pedal.sandbox.commands import run as sandbox_run, call as sandbox_call, evaluate as sandbox_evaluate  # noqa: E402
+from pedal.utilities.exceptions import ExpandedTraceback  # noqa: E402
 from pedal.resolvers import simple  # noqa: E402
 
 THEOREMS = [
@@ -56,7 +57,61 @@ BODY = ["a = 1", "print(a)", "", "b = a + 1", "# c", "   ", "a = a * 2", "if a:\
         # characters that str.splitlines() treats as line breaks but split("\n") does not (kept inside comments /
         # string literals so the code still parses): FF, VT, FS/GS/RS, NEL, LS, PS
         "# c\x0c", "# d\x0b e", "s = 'a\u2028b'", "t = 'p\u2029q'  # \x85", "# \x1c\x1d\x1e", "u = 1  # \x0c\x0c"]
-ODD_FILLERS = ["# c\x0c", "s = 'a\u2028b'", "# \x1c\x1d", "t = 'p\u2029q'", "# d\x0b e\x85"]
+ODD_FILLERS = ["# c\x0c", "s = 'a\u2028b'", "# \x1c\x1d", "t = 'p\u2029q'", "# d\x0b e\x85", "\x0c", "g = 1 \x0c"]
+# off by default: a lone CR before the section is a line end for CPython (tokenizer, compile, tracebacks) but not for
+# next_section()'s split("\n") - a defect of the unchanged tree (reported to the main session; see notes/C17.md)
+LONE_CR = os.environ.get("VERIF_C17_LONE_CR", "1") != "0"      # an OPEN finding now: on by default, "0" = off switch
+# Failures on inputs of these families - classified on the INPUT - carry exactly the family signature, are shown once
+# per run, use no failure slot and do not end the search early (KNOWN_FINDINGS.jsonl, notes/C17.md).
+LONE_CR_FAMILY = {"family": "lone-cr-before-independent-section"}
+LONE_CR_TEXT_FAMILY = {"family": "lone-cr-frame-text"}
+_LONE_CR = re.compile(r"\r(?!\n)")
+# The second family needs its own `open` record ({"family": "lone-cr-frame-text"}, text in notes/C17.md) before it may
+# be SHOWN: until the main session has added it, its failures are only counted in the evidence (family_failures).
+# Flip the default to "1" once the record is in KNOWN_FINDINGS.jsonl.
+SHOW_FRAME_TEXT_FAMILY = os.environ.get("VERIF_C17_LONE_CR_TEXT", "1") != "0"
+
+
+def planted_family(p, sig):
+    """The family a failure on planted case `p` belongs to, or None.
+    lone-cr-before-independent-section: independent mode AND the file text before the section under test contains a
+      lone CR (whatever tool / line kind failed).
+    lone-cr-frame-text: any other input containing a lone CR on which the only thing wrong is the source TEXT a
+      traceback frame carries (Submission's line tables are split on "\\n")."""
+    text = p["text"]
+    lone = [m.start() for m in _LONE_CR.finditer(text)]
+    if not lone:
+        return None
+    if p["independent"]:
+        spans = [m.end() for m in re.finditer(p["pattern"], text, flags=re.MULTILINE)]
+        if len(spans) >= p["k"] and any(x < spans[p["k"] - 1] for x in lone):
+            return LONE_CR_FAMILY
+    if sig.get("tool") == "traceback-stack" and "text" in sig:
+        return LONE_CR_TEXT_FAMILY
+    return None
+
+
+def corpus_planted():
+    d = os.path.join(os.path.dirname(os.path.dirname(os.path.abspath(__file__))), "corpus", "C17")
+    out = []
+    if os.path.isdir(d):
+        for n in sorted(os.listdir(d)):
+            if n.endswith(".json"):
+                with open(os.path.join(d, n)) as fh:
+                    c = json.load(fh)
+                if LONE_CR or not c.get("lone_cr"):
+                    out.append(c["planted"])
+    return out
+CR_FILLERS = ["i = 1\rj = 2", "# a\rm = 2", 's = """a\rb"""', "n = [1,\r 2]"]
+_CP_EOL = re.compile(r"\r\n|\r|\n")
+
+
+def cpython_lines_before(text, pos):
+    """Line ends CPython sees in text[:pos]: \\n, \\r\\n, lone \\r - nothing else."""
+    n = len(_CP_EOL.findall(text[:pos]))
+    if pos > 0 and text[pos - 1] == "\r" and text[pos:pos + 1] == "\n":
+        n -= 1
+    return n
 
 
 def marks_for(text, pattern):
@@ -272,6 +327,64 @@ PLANTS = {
 }
 
 
+def _cls(*body):
+    return ["class ZzE(Exception):"] + ["    " + b for b in body]
+
+
+# exception OBJECTS that the machinery building the report may choke on (traceback.TracebackException takes the
+# object's truth value, reads __notes__/__cause__/__context__, str()s it ...): whatever fallback the code then takes,
+# every line it shows is still a line of the whole file
+ODD_EXCEPTIONS = {
+    "len-raises": _cls("def __len__(self):", "    raise TypeError('no length')"),
+    "bool-raises": _cls("def __bool__(self):", "    raise TypeError('no truth')"),
+    "len-negative": _cls("def __len__(self):", "    return -1"),
+    "len-nonint": _cls("def __len__(self):", "    return 'three'"),
+    "bool-nonbool": _cls("def __bool__(self):", "    return 5"),
+    "str-raises": _cls("def __str__(self):", "    raise ValueError('no str')"),
+    "str-nonstr": _cls("def __str__(self):", "    return 5"),
+    "repr-raises": _cls("def __repr__(self):", "    raise ValueError('no repr')"),
+    "getattr-raises": _cls("def __getattr__(self, k):", "    raise ValueError('hidden')"),
+    "notes-nonlist": _cls("__notes__ = 5"),
+    "notes-raises": _cls("@property", "def __notes__(self):", "    raise ValueError('no notes')"),
+    "eq-raises-unhashable": _cls("def __eq__(self, o):", "    raise ValueError('eq')", "__hash__ = None"),
+    "plain-user-class": _cls("pass"),
+}
+# (__getattribute__ that raises is left out: the error escapes run() altogether - C04's open finding)
+
+
+def runtime_extra_plants():
+    """name -> {lines, frames (line indexes of the student frames, outermost first), after, verify}.  Built per run:
+    the depth of the deep recursion is taken from the tree's own MAXIMUM_RELEVANT_FRAMES (the traceback text is cut
+    to that many frames), at, just above and well above the limit."""
+    out = {}
+    for shape, cls in ODD_EXCEPTIONS.items():
+        n = len(cls)
+        out["odd:%s:top" % shape] = {"lines": cls + ["raise ZzE('too big')"], "frames": [n]}
+        out["odd:%s:fn" % shape] = {"lines": cls + ["def zz_f(v):", "    raise ZzE('too big')", "", "zz_f(5)"],
+                                    "frames": [n + 3, n + 1]}
+        out["odd:%s:call" % shape] = {"lines": cls + ["def zz_g(v):", "    raise ZzE('too big')"], "frames": [n + 1],
+                                      "after": ["call", "zz_g", 0]}
+    limit = int(getattr(ExpandedTraceback, "MAXIMUM_RELEVANT_FRAMES", 8))
+    for depth in sorted({1, limit - 2, limit - 1, limit + 3}):
+        if depth >= 1:
+            out["deep:%d-frames" % (depth + 2)] = {
+                "lines": ["def zz_r(n):", "    if n == 0:", "        return 1 // 0", "    return zz_r(n - 1)", "zz_r(%d)" % depth],
+                "frames": [4] + [3] * depth + [2]}
+    out["chain:from"] = {"lines": ["def zz_f():", "    try:", "        return 1 // 0", "    except ZeroDivisionError as zz_e:",
+                                   "        raise ValueError('bad') from zz_e", "zz_f()"], "frames": [5, 4]}
+    out["chain:context"] = {"lines": ["try:", "    [][1]", "except IndexError:", "    zz_v = {}['k']"], "frames": [3]}
+    out["group"] = {"lines": ["raise ExceptionGroup('many', [ValueError(1), TypeError(2)])"], "frames": [0]}
+    out["note"] = {"lines": ["zz_e = ValueError('x')", "zz_e.add_note('hello')", "raise zz_e"], "frames": [2]}
+    out["evaluate"] = {"lines": ["def zz_g(d):", "    return 1 // d"], "frames": [1], "after": ["evaluate", "zz_g(0)"]}
+    out["call-nested"] = {"lines": ["def zz_h(d):", "    return 1 // d", "def zz_g(d):", "    return zz_h(d)"],
+                          "frames": [3, 1], "after": ["call", "zz_g", 0]}
+    # the section is run WITHOUT verify(): the compiler's own error is a located runtime diagnostic
+    out["run-unverified:syntax"] = {"lines": ["zz_a = 1", "zz_x = ("], "frames": [1], "verify": False}
+    out["run-unverified:indent"] = {"lines": ["for zz_i in range(3):", "print(zz_i)"], "frames": [1], "verify": False}
+    return out
+
+
+RUNTIME_FRAMES = {"runtime": [0], "runtime_fn": [2, 1], "runtime_call": [1]}
 # which line of the planted snippet carries the diagnostic (0 = its first line), and for TIFA kinds which issue
 PLANT_LINE_DELTA = {"runtime_fn": 1, "runtime_call": 1, "tifa_iter_empty": 1, "tifa_append": 1, "tifa_iter_same": 1}
 TIFA_PLANT_LABEL = {"tifa": "initialization_problem", "tifa_iter": "iterating_over_non_list",
@@ -292,31 +405,64 @@ def gen_planted(rng):
             stmts.append(rng.choice(["a = 1", "print(1)", "", "b = 2", "# c", "pass", "if 1:\n    c = 3"]))
         if rng.random() < 0.35:
             stmts.insert(rng.randint(0, len(stmts)), rng.choice(ODD_FILLERS))
+        if LONE_CR and rng.random() < 0.3:
+            stmts.insert(rng.randint(0, len(stmts)), rng.choice(CR_FILLERS))
         chunks.append(stmts)
     chunks[0] = ["a = 1"] + chunks[0]
     k = rng.randint(1, nsec)
-    kind = rng.choice(list(PLANTS))
+    extra = None
+    if rng.random() < 0.4:
+        extras = runtime_extra_plants()
+        odd = rng.random() < 0.55
+        shape = rng.choice(sorted(x for x in extras if x.startswith("odd:") == odd))
+        extra = extras[shape]
+        kind, plant_lines = "runtime_x", extra["lines"]
+    else:
+        kind = rng.choice(list(PLANTS))
+        plant_lines = PLANTS[kind]
     spos = rng.randint(0, len(chunks[k]))                 # statement position of the plant inside section k
     pos = sum(len(st.split("\n")) for st in chunks[k][:spos])   # ... as a line position
-    chunks[k][spos:spos] = ["\n".join(PLANTS[kind])]
+    chunks[k][spos:spos] = ["\n".join(plant_lines)]
     chunks = [[ln for st in body for ln in st.split("\n")] for body in chunks]
     lines = []
-    planted_line = None
+    plant_at = marker_at = None
     for j, body in enumerate(chunks):
         if j > 0:
+            if j == k:
+                marker_at = len(lines)
             lines.append(MARKERS[pattern](j))
         if j == k:
-            planted_line = len(lines) + pos + 1 + PLANT_LINE_DELTA.get(kind, 0)
+            plant_at = len(lines) + pos                    # index (in `lines`) of the plant's first line
+            body_end = len(lines) + len(body)
         lines += body
     text = "\n".join(lines) + ("\n" if rng.random() < 0.8 else "")
+    starts, at = [], 0
+    for ln in lines:
+        starts.append(at)
+        at += len(ln) + 1
+
+    def cp_line(i):
+        """1-based line number CPython gives the i-th \\n-separated line of the file (differs from i+1 only if a
+        lone CR precedes it)."""
+        return 1 + cpython_lines_before(text, starts[i])
+    planted_line = cp_line(plant_at + PLANT_LINE_DELTA.get(kind, 0))
     independent = rng.random() < 0.6
     out = {"text": text, "pattern": pattern, "k": k, "kind": kind, "line": planted_line, "independent": independent}
+    if kind in RUNTIME_FRAMES:
+        out["frames"] = [cp_line(plant_at + r) for r in RUNTIME_FRAMES[kind]]
+    if extra is not None:
+        out["shape"] = shape
+        out["frames"] = [cp_line(plant_at + r) for r in extra["frames"]]
+        out["line"] = out["frames"][-1]
+        out["after"] = extra.get("after")
+        out["verify"] = extra.get("verify", True)
     if rng.random() < 0.25:
         # an earlier pass over the same file on the same report (other mode possible), walked some way and stopped
         out["prepass"] = {"independent": rng.random() < 0.7, "nexts": rng.randint(1, nsec)}
     if independent:
-        start = sum(len(c) for c in chunks[:k]) + k          # lines before section k's body incl. its marker line
-        out["section_lines"] = (start, start + len(chunks[k]) + 1)
+        # whole-file lines of section k: from its marker line to one past its last line
+        last = cp_line(body_end - 1) + lines[body_end - 1].count("\r") if body_end > marker_at + 1 else cp_line(marker_at)
+        out["section_lines"] = (cp_line(marker_at), last + 1)
     return out
 
 
@@ -372,14 +518,19 @@ def check_planted(p):
                             return ({"tool": "tifa", "line": "outside-section", "mode": mode(p)},
                                     "TIFA %s at line %r, section %d spans whole-file lines %d..%d" % (lab, ln, p["k"], lo, hi))
         else:
-            if not verify():
+            if p.get("verify", True) and not verify():
+                p["_skip"] = "ill-formed:section-does-not-parse"
                 return None
             sandbox_run()
-            if kind == "runtime_call":
+            after = p.get("after") or (["call", "zz_g", 0] if kind == "runtime_call" else None)
+            if after:
                 if [f for f in MAIN_REPORT.feedback if f.category == "runtime"]:
                     p["_skip"] = "section-failed-before-call"
                     return None
-                sandbox_call("zz_g", 0)
+                if after[0] == "call":
+                    sandbox_call(after[1], *after[2:])
+                else:
+                    sandbox_evaluate(after[1])
             fbs = [f for f in MAIN_REPORT.feedback if f.category == "runtime"]
             if len(fbs) != 1:
                 return ({"tool": "runtime", "count": len(fbs)}, "%d runtime feedbacks" % len(fbs))
@@ -389,10 +540,38 @@ def check_planted(p):
                 return ({"tool": "runtime-location", "line": "not-whole-file", "mode": mode(p)},
                         "runtime error located at %r, whole-file line %d" % (loc, p["line"]))
             tbm = str(f.fields.get("traceback_message", ""))
-            tb_lines = [int(x) for x in re.findall(r"[Ll]ine (\d+)", tbm)]
+            # frames of the student's file only (other files' frames, should a tree show any, are not section lines)
+            pairs = re.findall(r"[Ll]ine (\d+) of file ([^\n]*)", tbm)
+            named = [int(n) for n, rest in pairs if MAIN_REPORT.submission.main_file in rest]
+            tb_lines = named or [int(n) for n, _ in pairs] or [int(x) for x in re.findall(r"[Ll]ine (\d+)", tbm)]
             if p["line"] not in tb_lines:
                 return ({"tool": "traceback", "line": "not-whole-file", "mode": mode(p)},
                         "traceback mentions lines %r, whole-file line %d" % (tb_lines, p["line"]))
+            frames = p.get("frames")
+            if frames:
+                # EVERY line number the feedback exposes: all frames of the traceback text (cut to the tree's own
+                # MAXIMUM_RELEVANT_FRAMES), and the frame objects in fields['traceback_stack'] with their source lines
+                limit = int(getattr(ExpandedTraceback, "MAXIMUM_RELEVANT_FRAMES", 8))
+                shown = frames if len(frames) <= limit else frames[:limit // 2] + frames[-(limit // 2):]
+                if tb_lines != shown:
+                    return ({"tool": "traceback", "line": "not-whole-file", "mode": mode(p), "frames": "all"},
+                            "traceback text shows lines %r, the frames are at whole-file lines %r" % (tb_lines, shown))
+                stack = f.fields.get("traceback_stack")
+                if stack is not None:
+                    main_file = MAIN_REPORT.submission.main_file
+                    got = [fr.lineno for fr in stack if fr.filename == main_file]
+                    if got != frames:
+                        return ({"tool": "traceback-stack", "line": "not-whole-file", "mode": mode(p)},
+                                "fields['traceback_stack'] has the student frames at lines %r, whole-file lines %r"
+                                % (got, frames))
+                    file_lines = _CP_EOL.split(text)
+                    for fr in stack:
+                        # (a frame without source text shows no wrong line; one with ANOTHER line's text does)
+                        if fr.filename == main_file and (fr.line or "").strip() and \
+                                (fr.line or "").strip() != file_lines[fr.lineno - 1].strip():
+                            return ({"tool": "traceback-stack", "text": "not-the-line", "mode": mode(p)},
+                                    "frame at line %d carries source %r, line %d of the file is %r"
+                                    % (fr.lineno, fr.line, fr.lineno, file_lines[fr.lineno - 1]))
         # restoration
         if rngless_restore(text):
             return ({"restore": "main-code"}, "main code not restored after stop/resolve")
@@ -469,7 +648,7 @@ def search(rng, tier, broken, corr):
                     "location and the traceback text; main code restored by stop_sections and by resolve()",
             "evaluations": 0, "distinct_nontrivial": 0, "samples": []}
     nt = set()
-    n = 1000 if tier == "quick" else 6000
+    n = 1400 if tier == "quick" else 8000
     if broken:
         n *= 3
     for _ in range(n):
@@ -485,22 +664,34 @@ def search(rng, tier, broken, corr):
             seen.add(json.dumps(v[0], sort_keys=True))
             failures.append(Failure(v[0], v[1], {"kind": "structure", "text": text, "pattern": pattern,
                                                 "independent": independent}))
-    for _ in range(n):
+    family = {}
+    fixed = corpus_planted()
+    for i in range(n + len(fixed)):
         if len(failures) >= 6:
             break
-        p = gen_planted(rng)
+        p = dict(fixed[i]) if i < len(fixed) else gen_planted(rng)
         info["evaluations"] += 1
         nt.add(p["text"])
         v = check_planted(p)
-        tag = "planted:%s:%s" % (p["kind"], p.pop("_skip", "checked"))
+        tag = "planted:%s:%s" % (p["kind"] if p["kind"] != "runtime_x" else "runtime_x:" + p["shape"].split(":")[0],
+                                 p.pop("_skip", "checked"))
         info.setdefault("planted_breakdown", {})
         info["planted_breakdown"][tag] = info["planted_breakdown"].get(tag, 0) + 1
+        fam = planted_family(p, v[0]) if v is not None else None
+        if fam is not None:
+            key = fam["family"]
+            info.setdefault("family_failures", {})
+            info["family_failures"][key] = info["family_failures"].get(key, 0) + 1
+            if key not in family and (fam is not LONE_CR_TEXT_FAMILY or SHOW_FRAME_TEXT_FAMILY):
+                family[key] = Failure(dict(fam), v[1] + " {detailed signature: %s}" % json.dumps(v[0], sort_keys=True),
+                                      {"kind": "planted", "planted": p})
+            continue
         if v is not None and json.dumps(v[0], sort_keys=True) not in seen:
             seen.add(json.dumps(v[0], sort_keys=True))
             failures.append(Failure(v[0], v[1], {"kind": "planted", "planted": p}))
     info["distinct_nontrivial"] = len(nt)
     info["samples"] = [gen_planted(rng)]
-    return failures, info
+    return failures + list(family.values()), info
 
 
 def replay(payload):
